@@ -1,12 +1,12 @@
 #!/bin/bash
-# reseed_all.sh [jobs] : re-runs the check of every seeded change (seeded/<Cxx>_m<i>, seeded/<Cxx>_r2m<i>) against the
+# reseed_all.sh [jobs] : re-runs the check of every seeded change (seeded/<Cxx>_m<i>, _r2m<i>, _r3m<i>, _r4m<i>) against the
 # current machinery, each in its own scratch copy (tools/seedtest.sh), <jobs> at a time (default 3), and writes one
 # line per change to /verif/seeded/recheck.txt.  Run by hand after larger changes of the harness or the models; it is
 # not part of any registered check.  Scratch: /tmp/seedtest/rs<k> (removed at the end).
 jobs=${1:-3}
 out=/verif/seeded/recheck.txt
 : > $out.tmp
-ls -d /verif/seeded/C??_m? /verif/seeded/C??_r2m? 2>/dev/null | sort > /tmp/reseed_list.txt
+ls -d /verif/seeded/C??_m? /verif/seeded/C??_r2m? /verif/seeded/C??_r3m? /verif/seeded/C??_r4m? 2>/dev/null | sort > /tmp/reseed_list.txt
 worker() {
   k=$1
   while true; do
@@ -15,7 +15,7 @@ worker() {
     id=$(basename $d); p=${id:0:3}
     extra=""
     # changes that a neighbouring property's check is (also) meant to see
-    r=$(/verif/tools/seedtest.sh rs$k $d/patch.diff $p 2>&1 | grep -E "^\[check\]|^VIOLATION|^OK" | tr '\n' ' ' | cut -c1-330)
+    r=$(/verif/tools/seedtest.sh rs$k $d/patch.diff $p 2>&1 | grep -E "^\[check\]|^VIOLATION|^OK|cannot" | tr '\n' ' ' | cut -c1-330)
     echo "$id | $r" >> $out.tmp
   done
 }
